@@ -1,7 +1,7 @@
 ----------------------------- MODULE BuildOrderGen -----------------------------
 (* G mode for C19: all small build-dependency graphs, rendered as .dsc files.  *)
 EXTENDS BuildOrder, GenLib
-CONSTANTS N, Labels
+CONSTANTS N, Labels, Fill
 SrcName(i) == <<115, 48 + i>>                      \* s<i>
 Bin(i, k) == <<115, 48 + i, HYPHEN, 96 + k>>       \* s<i>-a, s<i>-b
 Ext == <<100, 101, 98, 104, 101, 108, 112, 101, 114>>   \* debhelper (not built by any source here)
@@ -27,7 +27,7 @@ FieldOf(i, j) == 1 + ((i + j) % 3)
 Source(lab, j) ==
     [name |-> SrcName(j), binaries |-> <<Bin(j, 1), Bin(j, 2)>>,
      fields |-> [f \in 1..3 |->
-                   (IF f = 1 THEN << <<[name |-> Ext, restr |-> "none"]>> >> ELSE <<>>) \o
+                   (IF f = 1 THEN [k \in 1..Fill |-> <<[name |-> Ext \o <<48 + k>>, restr |-> "none"]>>] ELSE <<>>) \o
                    Concat([i \in 1..N |-> IF i # j /\ FieldOf(i, j) = f THEN RelFor(lab[<<i, j>>], i) ELSE <<>>])]]
 Graph(lab) == [j \in 1..N |-> Source(lab, j)]
 Vec(lab, folded) == LET g == Graph(lab) IN
